@@ -23,7 +23,7 @@ def run(tier, seed):
             exp = [uc.tag_rt_expected(r) for r in recs]
         outs = uc.drive(cases)
         splits += sum(o.get("splits", 0) for o in outs if isinstance(o, dict))
-        uc.compare(chk, name, cases, exp, outs, known=uc.tag_known, limit=6,
+        uc.compare(chk, name, cases, exp, outs, limit=6,
                    nontrivial=lambda c: len(c.get("items", c.get("b", []))) >= (1 if "items" in c else 2))
         chk.sample({"gen": name, "case": cases[len(cases) // 2], "expected": exp[len(cases) // 2]})
         chk.cov.setdefault("corpus", {})[name] = len(cases)
